@@ -338,6 +338,11 @@ class _ImmutableTaskList:
             super().__setattr__(key, value)
         else:
             tasks = [t for t in self._list]
+            if key == 'parent' and value is not None:
+                # New parent adopts all tasks at once: every task is validated before the first one is moved,
+                # so rejected assignment changes nothing
+                value.children += tasks
+                return
             for t in tasks:
                 t.__setattr__(key, value)
 
